@@ -721,7 +721,13 @@ func (x *Exec) evalBool(c *Clause, env *Env) (t T) {
 
 // ---------------------------------------------------------------- axiom instances for rs
 
-var rsEqSteps = []int{1, 2, 3, 4, 5, 6, 7, 8, 9, 10, 11, 12, 13, 14, 15, 16, 17, 18, 19}
+var rsEqSteps = func() []int {
+	var ks []int
+	for k := 1; k <= 19; k++ {
+		ks = append(ks, k)
+	}
+	return ks
+}()
 
 func allRel(t T, rel map[string]bool) bool {
 	for _, m := range symRe.FindAllString(t.S, -1) {
@@ -737,7 +743,15 @@ func (x *Exec) attachAxioms(o *Obligation) {
 	decT := append([][2]T{}, x.decTerms...)
 	mode := x.th.Mode()
 	w := x.w
-	o.ExtraFn = func(rel map[string]bool) []string {
+	o.Levels = 1
+	if x.contract != nil {
+		for _, u := range x.contract.Uses {
+			if strings.HasPrefix(u, "rswide=") {
+				o.Levels = 2
+			}
+		}
+	}
+	o.ExtraFn = func(rel map[string]bool, level int) []string {
 		var out []string
 		var rs [][2]T
 		for _, t := range rsT {
@@ -745,7 +759,25 @@ func (x *Exec) attachAxioms(o *Obligation) {
 				rs = append(rs, t)
 			}
 		}
-		out = append(out, rsInstances(rs)...)
+		eq, mono := rsEqSteps, []int{0, 1, 20, 36, 40}
+		var wide []int
+		if x.contract != nil {
+			for _, u := range x.contract.Uses {
+				if strings.HasPrefix(u, "rssteps=") {
+					eq = parseIntList(u[len("rssteps="):])
+				}
+				if strings.HasPrefix(u, "rsmono=") {
+					mono = parseIntList(u[len("rsmono="):])
+				}
+				if level >= 1 && strings.HasPrefix(u, "rswide=") {
+					wide = parseIntList(u[len("rswide="):])
+				}
+			}
+		}
+		if wide != nil {
+			eq = wide
+		}
+		out = append(out, rsInstancesK(rs, eq, mono)...)
 		if mode == "int" {
 			for _, d := range decT {
 				if allRel(d[0], rel) && allRel(d[1], rel) {
@@ -760,6 +792,21 @@ func (x *Exec) attachAxioms(o *Obligation) {
 func pow10(k int) *big.Int { return new(big.Int).Exp(big.NewInt(10), big.NewInt(int64(k)), nil) }
 
 func rsInstances(terms [][2]T) []string {
+	return rsInstancesK(terms, rsEqSteps, []int{0, 1, 20, 36, 40})
+}
+
+func parseIntList(s string) []int {
+	var out []int
+	for _, f := range strings.Split(s, ",") {
+		var k int
+		if _, err := fmt.Sscanf(strings.TrimSpace(f), "%d", &k); err == nil {
+			out = append(out, k)
+		}
+	}
+	return out
+}
+
+func rsInstancesK(terms [][2]T, eqSteps, monoSteps []int) []string {
 	var out []string
 	seen := map[string]bool{}
 	var uniq [][2]T
@@ -788,11 +835,11 @@ func rsInstances(terms [][2]T) []string {
 			}
 			// b.e = a.e + k  ==>  rs(v,a.e) = 10^k * rs(v,b.e)
 			var cs []string
-			for _, k := range rsEqSteps {
+			for _, k := range eqSteps {
 				cs = append(cs, fmt.Sprintf("(=> (= %s (+ %s %d)) (= (rs %s %s) (* %s.0 (rs %s %s))))", b[1].S, a[1].S, k, a[0].S, a[1].S, pow10(k).String(), b[0].S, b[1].S))
 			}
 			// monotonic (v >= 0): b.e >= a.e + k ==> rs(v,b.e)*10^k <= rs(v,a.e)
-			for _, k := range []int{0, 1, 20, 36, 40} {
+			for _, k := range monoSteps {
 				cs = append(cs, fmt.Sprintf("(=> (and (>= %s 0.0) (>= %s (+ %s %d))) (<= (* %s.0 (rs %s %s)) (rs %s %s)))", a[0].S, b[1].S, a[1].S, k, pow10(k).String(), b[0].S, b[1].S, a[0].S, a[1].S))
 			}
 			out = append(out, "(assert (and "+strings.Join(cs, " ")+"))")
